@@ -9,6 +9,7 @@ import (
 	codectypes "github.com/cosmos/cosmos-sdk/codec/types"
 	sdk "github.com/cosmos/cosmos-sdk/types"
 	"github.com/cosmos/cosmos-sdk/x/authz"
+	authtypes "github.com/cosmos/cosmos-sdk/x/auth/types"
 	banktypes "github.com/cosmos/cosmos-sdk/x/bank/types"
 
 	opchildante "github.com/initia-labs/OPinit/x/opchild/ante"
@@ -384,7 +385,14 @@ func (c *c20) redundant(n int) {
 				s := 1 + uint64(c.rng.Intn(int(next-1)))
 				msgs, desc = append(msgs, e.DepositMsg(e.Executors[0], s, "l1", e.Users[0].String(), "uinit", math.NewInt(10), nil)), append(desc, fmt.Sprintf("stale(%d)", s))
 			case 2:
-				msgs, desc = append(msgs, e.DepositMsg(e.Executors[0], cur, "l1", e.Users[0].String(), "uinit", math.NewInt(10), nil)), append(desc, fmt.Sprintf("fresh(%d)", cur))
+				// a fresh deposit is fresh whether it ends credited or bounced (unusable recipient, blocked module account,
+				// hook data that cannot run)
+				to := mon.Pick(c.rng, []string{e.Users[0].String(), e.Users[0].String(), "garbage", authtypes.NewModuleAddress(authtypes.FeeCollectorName).String()})
+				var data []byte
+				if c.rng.Chance(30) {
+					data = c.rng.Bytes(1 + c.rng.Intn(30))
+				}
+				msgs, desc = append(msgs, e.DepositMsg(e.Executors[0], cur, "l1", to, "uinit", math.NewInt(10), data)), append(desc, fmt.Sprintf("fresh(%d to %s data %d bytes)", cur, short(to), len(data)))
 				cur++
 				fresh++
 				allStale = false
